@@ -99,7 +99,8 @@ def k2_search(ctx, pid: str):
             loops = [e for e in o.path.effects if e[0] == "loop" and e[1] == "range"]
             lo_spec = POS if explicit else ZERO
             if len(loops) != 1:
-                return [(rule + ".scan", name, False, "expected one ascending scan over start positions, found %d" % len(loops))]
+                desc = [e for e in o.path.effects if e[0] == "loop" and e[1] == "range-desc"]
+                return [(rule + ".scan", name, False, "expected one ascending scan over start positions, found %d%s" % (len(loops), " (and a descending one: the leftmost match would not be returned)" if desc else ""))]
             _, _, lo, hi = loops[0]
             hi_spec = I.amin(N, END) if explicit else N
             out.append((rule + ".scan", name, I.aff_eq(Aff.of(lo), lo_spec) and I.aff_eq(Aff.of(hi), hi_spec),
